@@ -23,7 +23,10 @@ def nontrivial(r):
 
 
 def sessions(ctx, results):
-    r = session.run_sessions(ctx, ctx.n(16, 300), ["C09"])
+    # leaves that finish after one or two metaepochs while the root keeps proposing, NBC_FarEnough comparing against ALL demes of the level
+    force = {"height": 2, "sprout": {"kind": "nbc", "gen_dist": 1.0, "trunc": 1.0, "fil_dist": 1.0, "level_limit": 4}, "objective_kind": "funnel",
+             "levels_patch": [{"lsc": {"kind": "DontStop"}}, {"lsc": {"kind": "MetaepochLimit", "n": 1}}], "gsc": {"kind": "MetaepochLimit", "n": 8}}
+    r = session.run_sessions(ctx, ctx.n(24, 400), ["C09"], force)
     known = "C09/progress/all-active-demes-hibernating"
     return {"violations": [v for v in r["violations"] if v["key"].startswith("C09")], "evaluations": r["evaluations"], "distinct_nontrivial": 0, "notes": {"session_runs": r["evaluations"]}}
 
